@@ -498,13 +498,14 @@ func intConst(v absint.Value) int64 {
 func init() {
 	register(&Property{
 		ID:    "C06",
-		Rules: []string{"C06-R1", "C06-R2", "C06-R3", "C06-R4", "C06-R5", "C06-R6"},
+		Rules: []string{"C06-R1", "C06-R2", "C06-R3", "C06-R4", "C06-R5", "C06-R6", "C06-R7"},
 		Explain: "Decides the comparison logic and wiring of period selection: C06-R1 the interval predicate evaluated exhaustively over nil(begin) x nil(end) x ord(day,begin) x ord(day,end) equals begin<=day<=end and is stateless; " +
 			"C06-R2 the per-record callback hands a record to the reporter exactly when there is no error and (no filter or the filter accepts), and a rejected record neither stops nor fails the walk; " +
 			"C06-R3 every walk over the log is handed a filter that derives (value flow) from GetIntervalNodeFilter applied to Options.FilterConfig; " +
 			"C06-R4 --begin/--end, declared on the application and on commands, are read from the context lineage root-first so the innermost position wins; " +
 			"C06-R5 the keywords today/yesterday/last7/last30 derive from the supplied now and nothing derives from time.Now; " +
-			"C06-R6 the summary window is time.Date(Year,Month,Day of the requested date, 0:00 / last instant, the date's own Location).",
+			"C06-R6 the summary window is time.Date(Year,Month,Day of the requested date, 0:00 / last instant, the date's own Location).; " +
+			"C06-R7 time-zone dependent calls (Local, In, UTC, ParseInLocation, LoadLocation, time.Local) occur only at the two allowed sites, so no date is moved to the process zone or across a daylight-saving switch.",
 		NotDecided: "time-zone independence of date parsing itself, equality of a filtered run with the run on the filtered file",
 		Assumptions: []string{
 			"time.Time.Equal/After/Before form a total order (exactly one of <,=,> holds)",
@@ -516,6 +517,7 @@ func init() {
 			ruleLineage(c, "C06-R4", func(n string) bool { return n == "begin" || n == "end" })
 			ruleC06R5(c)
 			ruleC06R6(c)
+			ruleZoneAPIs(c, "C06-R7")
 		},
 	})
 }
@@ -698,5 +700,59 @@ func ruleC06R3(c *core.Ctx) {
 	}
 	if n == 0 {
 		c.Undecide(rule, core.FuncName(walk), "universe", c.P.Pos(walk.Pos()), "nobody calls WalkNodesInStream", nil)
+	}
+}
+
+// ruleZoneAPIs: dates of the log are parsed and printed in one fixed zone
+// (time.Parse yields UTC and nothing converts). Any call that brings the
+// process time zone in — Local, In, ParseInLocation, LoadLocation, a read of
+// time.Local — or that moves a parsed date to another zone (UTC) outside the
+// two allowed sites makes days shift with the machine's zone or with a
+// daylight-saving switch.
+func ruleZoneAPIs(c *core.Ctx, rule string) {
+	zoneCalls := map[string]bool{
+		"(time.Time).Local": true, "(time.Time).UTC": true, "(time.Time).In": true, "time.ParseInLocation": true,
+		"time.LoadLocation": true, "time.FixedZone": true, "time.LoadLocationFromTZData": true,
+	}
+	allowed := map[string]map[string]string{
+		"options.NewDefaultGlobalConfig": {"(time.Time).Local": "the default 'now' is the wall clock; only its calendar date is used"},
+		"options.GetTimeFromString":      {"(time.Time).Local": "the keyword today returns the supplied now; Local() keeps the instant"},
+	}
+	n := 0
+	for _, fn := range c.P.Funcs {
+		name := core.FuncName(fn)
+		top := name
+		if i := strings.IndexByte(top, '$'); i >= 0 {
+			top = top[:i]
+		}
+		for _, b := range fn.Blocks {
+			for _, in := range b.Instrs {
+				what := ""
+				switch in := in.(type) {
+				case ssa.CallInstruction:
+					if cal := in.Common().StaticCallee(); cal != nil && zoneCalls[cal.String()] {
+						what = cal.String()
+					}
+				case *ssa.UnOp:
+					if g, ok := in.X.(*ssa.Global); ok && g.Pkg != nil && g.Pkg.Pkg.Path() == "time" && (g.Name() == "Local") {
+						what = "time.Local"
+					}
+				}
+				if what == "" {
+					continue
+				}
+				n++
+				pos := c.P.Pos(in.Pos())
+				c.Universe(rule+" time-zone dependent calls", fmt.Sprintf("%s: %s (%s)", name, what, pos))
+				if r, ok := allowed[top][what]; ok {
+					c.Discharge(rule, name, what, pos, "allowed: "+r)
+				} else {
+					c.Violate(rule, name, what, pos, what+" in "+name+": dates of the log are parsed and printed without a zone; this brings the process time zone (or another zone) in, so the day shown or selected shifts west or east of UTC, or across a daylight-saving switch", nil)
+				}
+			}
+		}
+	}
+	if n == 0 {
+		c.Note(rule + ": no time-zone dependent call in the tree")
 	}
 }
